@@ -124,7 +124,17 @@ int run(const Options& o)
                     eng::engine_schema reported = eng::engine_schema::schema_3_0_0;
                     dj::database d = c.mode == 2 ? eng::create_temporary_database(c.schema) : eng::create_or_load_database(dir, c.schema, created_flag, reported);
                     if (seam::opened_handles().size() <= before) throw std::runtime_error("C12: SQLite handle not captured");
-                    w.reset(new World(c.schema, d, seam::opened_handles().back()));
+                    try { w.reset(new World(c.schema, d, seam::opened_handles().back())); }
+                    catch (const std::exception& e)
+                    {
+                        // the harness cannot even read the Information table where a library of this generation keeps it: what was created is not
+                        // a library of the requested version (e.g. the other generation's layout)
+                        viol("created_wrong_layout", std::string("the created library does not have the layout of the requested version: ") + e.what() + "; version_name() = " + d.version_name());
+                        a.count("evaluations");
+                        a.flush(em);
+                        if (system(("rm -rf '" + dir + "'").c_str())) {}
+                        return;
+                    }
                     if (c.mode == 3)
                     {
                         if (!created_flag) viol("create_or_load_not_created", "create_or_load_database on an empty directory reports created = false");
